@@ -41,9 +41,13 @@ package rpc
 //@ func (*JSONRPCServer).Listen$1 [C39]
 //@   opt safety=assumed overflow=assumed
 //@   assert@call ServeRequest: ret(checkIPWhitelist) && ret(checkBasicAuth) && (ret(IsLoopback) || (!ret(checkJrpcFuncBlacklist) && called(checkJrpcFuncWhitelist) && ret(checkJrpcFuncWhitelist)))
-//@   assert@call checkJrpcFuncBlacklist: arg0 == ret(checkFilterPrintFuncBlacklist) || true
 
 // every kind of gRPC method has an interceptor that runs auth
 //@ func NewGRpcServer [C39]
 //@   opt safety=assumed panics=allowed
 //@   ensures called(UnaryInterceptor) && called(StreamInterceptor)
+
+// the unary interceptor authorizes before it hands over to the method's handler
+//@ func NewGRpcServer$1 [C39]
+//@   opt safety=assumed
+//@   ensures result1 == nil ==> ret(auth) == nil
